@@ -15,6 +15,8 @@ Vals1 == {Null, IntV(0), IntV(-12), MaxV(0), MinV(0), BoolV(TRUE), T(<<>>), T(<<
           T(<<91, 52, 50, 52, 50, 93>>), T(<<123, 125>>), T(<<123, 34, 97, 34, 58, 49, 125>>), T(<<91, 49, 46, 53, 48, 44, 34, 120, 34, 93>>), T(<<110, 117, 108, 108>>), T(<<116, 114, 117, 101>>), T(<<49, 50>>), T(<<34, 113, 34>>),
           \* control characters without a short JSON escape (ESC, NUL, BEL, US, DEL), CR, \b \f, line separator U+2028, BOM, backslash + quote, the last code point
           T(<<27, 91, 48, 109>>), T(<<0>>), T(<<7, 97>>), T(<<31>>), T(<<127>>), T(<<13>>), T(<<8, 12>>), T(<<8232>>), T(<<65279>>), T(<<92, 34>>), T(<<1114111>>), RealV(3, 2), RealV(1, 1), RealV(-1, 4), NaN, PInf, NZero,
+          \* REALs at and beyond the ends of the 64-bit integers, and the first REAL that is no longer every integer: recovered exactly from the JSON number
+          P63, N63, E19, NE19, E300, P53b, I53(1), I31(5),
           IvV(0), IvV(3723004), IvV(86400000), IvV(180930000), TsV(<<2021, 3, 4, 5, 6, 7, 89000>>), TsV(<<1999, 12, 31, 23, 59, 59, 999000>>),
           ArrV("int", <<IntV(1), Null, IntV(2)>>), ArrV("text", <<T(<<97>>), T(<<34>>)>>)}
 ValsSmall == {Null, IntV(7), T(<<120>>)}
@@ -28,9 +30,15 @@ TwoCol == {PCall(<<cA, cB>>, <<<<v, w>>>>, FALSE) : v \in ValsSmall, w \in ValsS
           \cup {PCall(<<cA, cB>>, <<<<v, IntV(1)>>, <<Null, v>>>>, s) : v \in ValsSmall, s \in BOOLEAN}
           \cup {PCall(<<cA, cB>>, <<<<v, IntV(1)>>, <<Null, v>>, <<v, v>>>>, TRUE) : v \in ValsSmall}
           \cup {PCall(<<cInput, cB>>, <<<<T(<<108>>), IntV(1)>>>>, FALSE)}
-MenuAll == OneCol \cup TwoCol
+\* timestamps within one second that differ in their fraction, printed one after the other (in one result, in consecutive results, next to another column)
+Ts125 == TsV(<<2021, 3, 4, 10, 20, 30, 125000>>)
+Ts750 == TsV(<<2021, 3, 4, 10, 20, 30, 750000>>)
+TsRows == {PCall(<<cA>>, <<<<Ts125>>, <<Ts750>>, <<Ts125>>>>, s) : s \in BOOLEAN} \cup {PCall(<<cA, cB>>, <<<<Ts125, IntV(1)>>, <<Ts750, IntV(2)>>>>, TRUE),
+          PCall(<<cA, cB>>, <<<<Ts750, Ts125>>, <<Ts125, Ts750>>>>, FALSE), PCall(<<cA>>, <<<<ArrV("ts", <<Ts125, Ts750>>)>>, <<Ts750>>>>, FALSE)}
+MenuAll == OneCol \cup TwoCol \cup TsRows
 MenuSeq == {PCall(<<cA>>, <<>>, FALSE), PCall(<<cA>>, <<<<IntV(1)>>>>, FALSE), PCall(<<cA>>, <<<<IntV(2)>>, <<Null>>>>, FALSE),
-            PCall(<<cA>>, <<<<T(<<120>>)>>, <<IntV(3)>>>>, TRUE), PCall(<<cInput>>, <<<<T(<<108>>)>>>>, FALSE)}
+            PCall(<<cA>>, <<<<T(<<120>>)>>, <<IntV(3)>>>>, TRUE), PCall(<<cInput>>, <<<<T(<<108>>)>>>>, FALSE),
+            PCall(<<cA>>, <<<<Ts125>>>>, FALSE), PCall(<<cA>>, <<<<Ts750>>>>, FALSE)}
 
 Emit == ci = Len(calls) => PrintT(<<"REPLAY", ToJson([fmt |-> fmt, calls |-> calls, out |-> outp])>>)
 =============================================================================
